@@ -25,6 +25,7 @@ pub struct Ctx {
     pub repo: String,
     pub root: String,
     pub files: HashMap<String, (String, syn::File)>,
+    pub lift: lift::LiftRegistry,
 }
 
 impl Ctx {
@@ -61,7 +62,7 @@ fn main() {
     let out = arg(&args, "--out").expect("--out");
     let report = arg(&args, "--report").expect("--report");
     let root = arg(&args, "--root").unwrap_or_else(|| ".".into());
-    let mut ctx = Ctx { repo, root, files: HashMap::new() };
+    let mut ctx = Ctx { repo, root, files: HashMap::new(), lift: Default::default() };
     let text = std::fs::read_to_string(&template).expect("read template");
     let res = template::process(&mut ctx, &text);
     let (ok, gen, rep) = match res {
